@@ -544,7 +544,41 @@ func concWorker(seed int64, rounds int) {
 		var jobs []job
 		for i := range items {
 			it, m, text, enc := items[i], msgs[i], texts[i], encs[i]
+			// arguments shared by all goroutines: a fill-in table (ellipsis counts, renames),
+			// system bytes, an encoded message; reading them concurrently is legal Go, so any
+			// race or changed result means a producer wrote to its argument
+			sharedEnv := map[string]interface{}{"nokey": 1}
+			for k, v := range it.Variables() {
+				if strings.HasPrefix(v, "...") {
+					sharedEnv[v] = 1 + k%2
+				} else if k%3 == 0 {
+					sharedEnv[v] = fmt.Sprintf("shared%d_%d", i, k)
+				}
+			}
+			sharedSys := []byte{9, 8, 7, byte(i)}
 			jobs = append(jobs,
+				func(string) string {
+					out := "PANIC"
+					safely(func() { out = showItem(it.FillVariables(sharedEnv)) })
+					return out
+				},
+				func(string) string {
+					out := "PANIC"
+					safely(func() { out = showMsg(m.FillVariables(sharedEnv)) })
+					return out
+				},
+				func(string) string { return showMsg(m.SetSessionIDAndSystemBytes(7, sharedSys)) },
+				func(string) string {
+					out := "PANIC"
+					safely(func() {
+						if m2, ok := hsms.Parse(enc); ok {
+							out = hx(m2.ToBytes())
+						} else {
+							out = "fail"
+						}
+					})
+					return out
+				},
 				func(string) string { return showItem(it) },
 				func(string) string { return showMsg(m) },
 				func(salt string) string {
